@@ -456,7 +456,10 @@ impl World {
                 if let Some((_, d)) = self.next_deadline() {
                     let now = self.now();
                     if d > now + Duration::from_millis(2) {
-                        tokio::time::advance((d - now) / 2).await;
+                        // whole milliseconds only: tokio's timers have that resolution, and every deadline
+                        // of the harness is meant to be a whole number of milliseconds
+                        let half = Duration::from_millis(((d - now).as_millis() as u64) / 2);
+                        tokio::time::advance(half).await;
                     }
                 }
             }
@@ -465,6 +468,8 @@ impl World {
                     // whatever gate the task reaches afterwards is a new timed section
                     let _ = self.gate_deadline.remove(&t);
                     let now = self.now();
+                    // to the next full millisecond at or after the deadline (timer resolution)
+                    let d = Duration::from_millis((d.as_micros() as u64 + 999) / 1000);
                     if d > now {
                         tokio::time::advance(d - now).await;
                     }
